@@ -54,6 +54,33 @@ func c16Small(c *Ctx) {
 				}
 			}
 		}
+		// the kinds may be handed to a predicate of the package as variadic arguments: t.isOneOfKinds(ast.Object, ast.Interface)
+		for _, call := range an.CallsIn(fn, func(_ ssa.CallInstruction, ci an.CalleeInfo) bool {
+			return ci.Static != nil && ci.Static.Pkg == fn.Pkg && ci.Static.Signature.Variadic()
+		}) {
+			args := call.Common().Args
+			sl, ok := args[len(args)-1].(*ssa.Slice)
+			if !ok {
+				continue
+			}
+			arr, ok := sl.X.(*ssa.Alloc)
+			if !ok {
+				continue
+			}
+			for _, ref := range an.Referrers(arr) {
+				ia, ok := ref.(*ssa.IndexAddr)
+				if !ok {
+					continue
+				}
+				for _, r2 := range an.Referrers(ia) {
+					if st, ok := r2.(*ssa.Store); ok {
+						if k, isC := st.Val.(*ssa.Const); isC && k.Value != nil && k.Value.Kind() == constant.String && strings.HasSuffix(k.Type().String(), "DefinitionKind") {
+							got[constant.StringVal(k.Value)] = true
+						}
+					}
+				}
+			}
+		}
 		var gl []string
 		for k := range got {
 			gl = append(gl, k)
@@ -68,6 +95,9 @@ func c16Small(c *Ctx) {
 	c.R.Rule("filter-loops-total", "package introspection: every loop is left only from its header (a filtered element is skipped with continue; no break or return inside a loop): no element after a filtered one is lost", 5)
 	nl := 0
 	for _, fn := range c.moduleFuncs(func(p string) bool { return p == pkgIntrosp }) {
+		if r := fn.Signature.Results(); r.Len() == 1 && r.At(0).Type().String() == "bool" {
+			continue // a predicate: leaving its search loop with an answer is what it is for
+		}
 		for i, l := range an.Loops(fn) {
 			nl++
 			var at ssa.Instruction
@@ -89,7 +119,7 @@ func c16Small(c *Ctx) {
 	}
 
 	// (3) wrapper literals are complete
-	c.R.Rule("wrapper-literal-complete", "package introspection: every composite literal of Directive/EnumValue/Field/InputValue stores every field of the struct", 6)
+	c.R.Rule("wrapper-literal-complete", "package introspection: every composite literal of Directive/EnumValue/Field/InputValue stores every field of the struct", 3)
 	nlit := 0
 	for _, fn := range c.moduleFuncs(func(p string) bool { return p == pkgIntrosp }) {
 		k := 0
@@ -135,7 +165,7 @@ func c16Small(c *Ctx) {
 			}
 		}
 	}
-	if nlit < 6 {
+	if nlit < 3 {
 		c.R.Fail("wrapper-literal-complete: %d literals", nlit)
 	}
 
